@@ -763,6 +763,14 @@ impl Xot {
         let first_child = first_child.unwrap();
         // there is guaranteed to be a last child if there's a first child
         let last_child = self.last_child(node).unwrap();
+        if self.parent(node).is_none() {
+            // no parent to move the children to: they become separate trees
+            for child in self.children(node).collect::<Vec<_>>() {
+                child.get().detach(self.arena_mut());
+            }
+            self.remove_element(node);
+            return Ok(());
+        }
         self.remove_element(node);
 
         let prev_node = self.previous_sibling(first_child);
